@@ -409,6 +409,9 @@ func c01(c *core.Ctx) {
 			if fn.Parent() != nil || fn.Signature.Recv() != nil || fn.Signature.Results().Len() != 1 || !core.IsErrorType(fn.Signature.Results().At(0).Type()) {
 				continue
 			}
+			if isStreamTypeName(p, core.RecvName(fn)) {
+				continue // a stream method written as a function: judged with its family above
+			}
 			var mpar *ssa.Parameter
 			for _, pp := range fn.Params {
 				if ts := core.TypeStr(pp.Type()); ts == "interface{}" || ts == "any" {
@@ -555,8 +558,8 @@ func c01(c *core.Ctx) {
 			for _, s := range sendSites([]*ssa.Function{fn}) {
 				check(fn, s.instr, s.ch, "send")
 			}
-			if fn.Signature.Recv() != nil {
-				for _, r := range msgReceives(fn, core.NamedOf(fn.Signature.Recv().Type())) {
+			if core.RecvName(fn) != "" {
+				for _, r := range msgReceives(fn, core.RecvName(fn)) {
 					var ch ssa.Value
 					if r.sel != nil {
 						ch = r.sel.States[r.selIdx].Chan
@@ -689,7 +692,7 @@ func c01Sends(c *core.Ctx) {
 	}
 	// (ii) the HTTP frame writer
 	for _, fn := range p.LibFuncs("httpgrpc") {
-		if fn.Parent() != nil || fn.Signature.Recv() != nil || len(fn.Params) < 3 || core.TypeStr(fn.Params[0].Type()) != "io.Writer" {
+		if wi := ioParamIdx(fn, "io.Writer"); fn.Parent() != nil || wi < 0 || len(fn.Params) < wi+3 {
 			continue
 		}
 		var marshal, write *ssa.Call
